@@ -62,7 +62,7 @@ class ParseRecv(ICommParseRecv):
         _bytes += struct.pack(
             f"?BBBB{nlen}s",
             chan.data.en,
-            chan.data.dtype,
+            chan.data._type,
             chan.data.vdim,
             chan.data.div,
             chan.data.mlen,
